@@ -127,7 +127,8 @@ P["C02"] = dict(
     claimed=True,
     technique="static analysis: MIR value-graph dataflow over every per-tuple loop (loop-carried state, memo idiom, "
               "count additivity)",
-    decides=["R-ADAPTER-FIXED: no &mut method of the (T, f64) / (T, f64, f64) adapters assigns to the adapter's fixed height / epoch",
+    decides=["R-NO-PEEK: operator code reads no tuple at a constant index",
+             "R-ADAPTER-FIXED: no &mut method of the (T, f64) / (T, f64, f64) adapters assigns to the adapter's fixed height / epoch",
              "R-LOOP-CARRIED (memo soundness): a value cached between tuples under a key is computed from the tuple through that key alone",
              
         "R-LOOP-CARRIED: in every per-tuple loop of every function reachable from a registered InnerOp, the values "
@@ -179,7 +180,8 @@ P["C07"] = dict(
 P["C08"] = dict(
     claimed=True,
     technique="static analysis: per-iteration typestate (written x counted) on the grid operators' loops",
-    decides=["R-SUBGRID-STRICT: the walk down the NTv2 sub-grid tree tests strict containment; the caller's margin is used for the base grids' outer rim only",
+    decides=["R-TWO-PASS also reads the find_map form of the search over the grid list",
+             "R-SUBGRID-STRICT: the walk down the NTv2 sub-grid tree tests strict containment; the caller's margin is used for the base grids' outer rim only",
              "R-MARGIN-PASSED: Ntv2Grid::at passes the caller's margin on to both the sub-grid search and the interpolation",
              "R-GRID-MISS-IS-NAN: no result of grids_at is given a default (unwrap_or ...) in the grid operators",
              "R-NULL-ENDS-LIST: the branch that records the null grid leaves the grid-list loop (grids after `null` are ignored)",
@@ -239,7 +241,8 @@ P["C04"] = dict(
     claimed=True,
     technique="static analysis: call-graph cycle analysis with explicit fn-pointer edges, dominance of the depth "
               "guard, provenance of re-entering calls, ranking functions for every loop of the resolution code",
-    decides=["R-DEFAULT-LATEST: in chase a default met later in the chase (given further out) replaces the earlier one - no write of the default is guarded by the default so far or by the look-up flag",
+    decides=["R-PIPELINE-FAIL-FAST: from the failure side of Op::op in pipeline::new no path leads back into the loop over the steps",
+             "R-DEFAULT-LATEST: in chase a default met later in the chase (given further out) replaces the earlier one - no write of the default is guarded by the default so far or by the look-up flag",
              "R-FORWARD-SELF/known-only: a self-forwarded argument is dropped only when the caller has a value for it",
              "R-REC-GUARD (limit-room): the nesting limit is at least 50 macro expansions at the level cost of one expansion",
              "R-PIPELINE-NO-NAME: operator_name answers the empty string for pipelines before it looks at the parameters",
@@ -272,7 +275,9 @@ P["C09"] = dict(
     claimed=True,
     technique="static analysis: key-availability dataflow between constructors and parameter-table readers, "
               "validation-before-unwrap, ranking functions for all loops, recursion guard, ellipsoid table grammar",
-    decides=["R-GRID-SIZE-CHECK: no BaseGrid holding its own values is shorter than the interpolation indexes it",
+    decides=["R-CHASE-NEEDLE/nonempty: the list the next needle is popped from is known to be non-empty",
+             "R-ELLPS-VALIDATED/writers: outside ParsedParameters::new only validated names (or literals) are stored under ellps* keys of the text map",
+             "R-GRID-SIZE-CHECK: no BaseGrid holding its own values is shorter than the interpolation indexes it",
              "R-STR-SLICE also covers str::split_at and the byte-offset methods of String",
              "R-USER-I64-ARITH: every plain + / - on the i64 roll arguments in the stack interpreter is overflow-free by the known signs of its operands, or uses saturating / wrapping arithmetic",
              "R-UNSIGNED-SUB: no constant is subtracted from a natural-number parameter without a dominating test that the parameter is at least that large",
@@ -303,7 +308,9 @@ P["C09"] = dict(
 P["C12"] = dict(
     claimed=True,
     technique="static analysis: key-availability and dispatch-exhaustiveness between stack::new and stack_fwd/stack_inv",
-    decides=["R-EXACTLY-ONE: the sub-command count of stack::new is a sum of +1 steps from 0",
+    decides=["R-INDEX-VALIDATION/m-signed: roll / unroll compare the signed m with |n|",
+             "R-STACK-DUAL/swap: swap exchanges the top two elements in both directions",
+             "R-EXACTLY-ONE: the sub-command count of stack::new is a sum of +1 steps from 0",
              "R-USER-I64-ARITH: roll / unroll argument arithmetic cannot overflow (an out-of-range roll ends as `roll too deep`: NaN and zero successes)",
              "R-FLIP-SEQUENTIAL: each exchange of a flip reads the working tuple as the earlier exchanges left it",
              "R-STOMP-ALL: CoordinateSet::stomp overwrites whole tuples (set_coord with Coor4D::nan() for every index)",
@@ -333,7 +340,8 @@ P["C15"] = dict(
     technique="static analysis: interprocedural affine bounds analysis of every read of the NTv2 byte buffer against "
               "dominating length comparisons; zero-divisor guards; constructor-established invariants needed by the "
               "query code; classification of every unwrap in grid::*; ranking functions; NTv2 record offsets vs the format",
-    decides=["R-NTV2-OFFSET-ACCUMULATES: the record offset handed to the NTv2 sub-grid decoder is built from loop state that accumulates",
+    decides=["R-HEADER-PRECISION: every number gravsoft_grid_reader stores as f64 is parsed as f64 (no detour through f32)",
+             "R-NTV2-OFFSET-ACCUMULATES: the record offset handed to the NTv2 sub-grid decoder is built from loop state that accumulates",
              "R-GRID-SIZE-CHECK: under `offset value is 0 and rows * cols * bands exceeds the vector` the block that builds a BaseGrid is unreachable",
              "R-ROWCOUNT-AGREE: all row / column counts of the plain-grid code round with the same constant (reader and BaseGrid::plain agree on the size of the grid)",
              "R-COMMENT-FIRST: the Gravsoft reader cuts a line at its first `#`",
@@ -360,7 +368,9 @@ P["C03"] = dict(
     claimed=True,
     technique="static analysis: shape, typestate and provenance rules on the two pipeline interpreter functions found "
               "through the operator registry; boolean abstract interpretation of the direction dispatch",
-    decides=["R-PIPELINE-WRAPPED: a pipeline definition is always handed to pipeline::new, whatever its number of steps",
+    decides=["R-NORMALIZE-KEEPS-SEPARATORS: normalize trims none of | < > off the ends of a definition",
+             "R-FLAG-CASEFOLD: the macro branch of Op::op folds the case of `inv=True` like the Flag parameters do",
+             "R-PIPELINE-WRAPPED: a pipeline definition is always handed to pipeline::new, whatever its number of steps",
              "R-PIPE-OWN-PARAMS (own-modifiers): the pipeline's own parameters are parsed from values that still hold the invocation's omit_fwd / omit_inv",
              "R-PIPELINE-NO-NAME: a pipeline that starts with a macro step is not taken for a macro invocation",
              "R-INV-DECLARED: every built-in constructor that registers an inverse declares the flag `inv` in its gamut (three reviewed exceptions: push, pop, stack)",
@@ -389,7 +399,8 @@ P["C13"] = dict(
     claimed=True,
     technique="static analysis: abstract interpretation of the value graph in a unit domain (deg/rad) and an additive "
               "polarity domain for the false origin; affine extraction of the UTM constants; sign-slice of aspect selection",
-    decides=["R-LON0-EVERY-WRITE: every value written by the inverse (forward) function of a projection declaring lon_0 has a longitude (position) that depends on lon_0, special-cased aspects included",
+    decides=["R-NO-INPUT-CLAMP/output: no value a plane projection writes is a clamp against constants",
+             "R-LON0-EVERY-WRITE: every value written by the inverse (forward) function of a projection declaring lon_0 has a longitude (position) that depends on lon_0, special-cased aspects included",
              "R-LIMIT-ON-PLANE: the strip limit of the transverse Mercator inverse is applied to the input with the false easting removed",
              "R-PARALLELS-SYMMETRIC: every branch condition of lcc::new on an arithmetic combination of both standard parallels is symmetric in them, and lat_0 defaults to lat_1 on the strength of |lat_1 - lat_2| < eps",
              "R-LATTS-K0 (even): the decision to derive k_0 from lat_ts does not depend on the sign of lat_ts",
@@ -422,7 +433,9 @@ P["C19"] = dict(
     claimed=True,
     technique="static analysis: element-wise value-graph comparison of every CoordinateSet impl with the documented "
               "defaults; dominance of dimension guards; sign-carrier rule for the sexagesimal conversions",
-    decides=["R-SUBSET-DIM: a container of d-dimensional tuples specialises xyz / set_xyz only for d >= 3 and xyzt / set_xyzt only for d >= 4",
+    decides=["R-OPS-ELEMENTWISE: the 40 macro-generated + - * / operators of the tuple types compute element k from elements k of both operands, for all k below the dimension",
+             "R-CTOR-SIBLINGS: geo, gis, raw, arcsec, iso_dm, iso_dms, nan, origin, ones compute their horizontal elements alike for all four tuple types",
+             "R-SUBSET-DIM: a container of d-dimensional tuples specialises xyz / set_xyz only for d >= 3 and xyzt / set_xyzt only for d >= 4",
              "R-SIGN-CARRIER (odd form): in signum(x) * g(|x|) the magnitude g uses x through |x| only",
              "R-DIM-GUARD (checked writes): a default method that writes element by element through set_nth keeps its own index below dim()",
              "R-ADAPTER-FIXED: the fixed height / epoch of a 2D+ adapter is not changed by writing a tuple",
@@ -443,7 +456,10 @@ P["C20"] = dict(
     claimed=True,
     technique="static analysis of bin kp's MIR: per-iteration typestate of the output loop, dominance of emptiness and "
               "length guards, boolean abstract interpretation of the direction logic, error-propagation provenance",
-    decides=["R-KP-NO-PREROUND: transform() does no rounding arithmetic of its own on the results",
+    decides=["R-KP-SKIP-AFTER-CUT: the line loop tests the token list for emptiness after the comment was cut off (comment-only lines are skipped)",
+             "R-KP-ERRORS/lines: the io::Result items of the line iterator reach a `?`; the iterator is not wrapped in map_while / flatten / filter_map",
+             "R-KP-DIMENSION/width: every call of transform() receives the running maximum of the input widths",
+             "R-KP-NO-PREROUND: transform() does no rounding arithmetic of its own on the results",
              "R-KP-WIDTH-MONOTONE: the input width handed to transform is a running maximum, never reset inside the reading loops",
              "R-KP-DIMENSION: the output match dispatches on options.dimension.unwrap_or(input width) itself; the input width is measured after the comment was cut off",
              "R-COMMENT-FIRST: kp handles the comment character by first-occurrence primitives only",
@@ -503,7 +519,9 @@ P["C14"] = dict(
 P["C16"] = dict(
     claimed=True,
     technique="static analysis: declaration/use agreement of parameter keys between gamuts, constructors and readers",
-    decides=["T-SUBSCRIPTS: every subscript-digit replacement of normalize writes the same digit behind an underscore",
+    decides=["R-SPLIT-EXHAUSTIVE: series and sexagesimal values are taken apart with str::split and loops over the parts are not cut short (zip / take)",
+             "R-FLAG-CASEFOLD: every comparison of a parameter value with `true` in op:: and token:: folds the case first",
+             "T-SUBSCRIPTS: every subscript-digit replacement of normalize writes the same digit behind an underscore",
              "R-COMMENT-FIRST: the tokenizer cuts a line at its first `#` (no last-occurrence primitive is handed the comment character)",
              "R-SIGN-CARRIER (suffix): every value parse_sexagesimal returns carries the sign of the hemisphere letter",
              "R-BADPARAM-ORDER: every Error::BadParam built by ParsedParameters::new has the gamut key first and the offending value second",
@@ -524,7 +542,9 @@ P["C16"] = dict(
 P["C17"] = dict(
     claimed=True,
     technique="static analysis: who-calls and dataflow rules on Plain::op and parse_proj (value graph, control dependence)",
-    decides=["R-PROJ-GLOBALS-KEPT: the filter that builds the pipeline globals excludes exactly the element `inv`",
+    decides=["R-PROJ-COMMENT: the comment sign is searched as the bare `#`",
+             "R-PROJ-PLUS/contexts: the `+` prefix is removed behind a blank and at the start of a line",
+             "R-PROJ-GLOBALS-KEPT: the filter that builds the pipeline globals excludes exactly the element `inv`",
              "R-PROJ-PASSTHROUGH: a definition containing `|`, and one not containing `proj`, never reaches the translation (three-valued reachability over the guard)",
              "R-PROJ-TIDY-INDEPENDENT: the k= -> k_0= repair is reached whichever way the a / rf repair is decided",
              "R-PROJ-PLUS: `+` is removed only where it starts a token (after white space or at the start of the text)",
@@ -557,7 +577,8 @@ P["C18"] = dict(
     technique="static analysis: ownership/typing argument made explicit: deep field-type walk (no interior "
               "mutability), who-may-write rule for the context tables, resolution-order dominance in Op::op, fresh "
               "handles, grid-cache access set, and compile-fail witnesses with compiling twins",
-    decides=["R-OP-NO-REGISTRATION: Context::op of Minimal and Plain registers no resources or operators",
+    decides=["R-REGISTER-FOUND: once the opening tag of a register item is found, get_resource returns on every path (a missing closing fence at end of file included)",
+             "R-OP-NO-REGISTRATION: Context::op of Minimal and Plain registers no resources or operators",
              "R-PATH-ORDER: Plain::default pushes the local ./geodesy onto the search path before the per-user directory",
              "R-RESOLUTION-ORDER (same-name): user operators, macros and built-ins are all looked up under the operator name of the definition being instantiated",
              "T-FREEZE: Op, OpDescriptor, ParsedParameters, BaseGrid, Ntv2Grid, Minimal, Plain contain no interior mutability",
